@@ -181,3 +181,147 @@ func VH_C01_History() {
 	symCover("rendered")
 	symAssert(got == fresh, "history-independent")
 }
+
+// ---- C01.global: results that could be remembered process-wide ----------------------------------
+// A reference render in the same process would itself be part of the history of everything that is
+// process-wide (a package-level cache outlives engines), so here the reference is a model: each
+// template's expected output is computed by the harness directly from the context. A sequence of H
+// renders with independent symbolic contexts is run on engines sharing the process; every render of
+// the sequence must agree with the model.
+
+type vhC01A struct{ V, W string }
+type vhC01B struct{ W, V string } // same field names, other positions
+type vhC01C struct {
+	V int
+	W string
+}
+
+func (vhC01C) Name() string { return "meth" }
+
+type vhC01G struct {
+	name string
+	src  string
+	want func(x string, sh int) string
+}
+
+func vhC01Has(x, p string) bool { return len(x) >= len(p) && x[:len(p)] == p }
+
+func vhC01Obj(x string, sh int) interface{} {
+	switch sh {
+	case 0:
+		return vhC01A{x, "w"}
+	case 1:
+		return vhC01B{"w", x}
+	case 2:
+		return &vhC01A{x, "w"}
+	case 3:
+		return map[string]interface{}{"V": x, "W": "w"}
+	}
+	return vhC01C{7, x}
+}
+
+func vhC01ObjV(x string, sh int) string {
+	if sh == 4 {
+		return "7"
+	}
+	return x
+}
+func vhC01ObjW(x string, sh int) string {
+	if sh == 4 {
+		return x
+	}
+	return "w"
+}
+
+var vhC01Globals = []vhC01G{
+	{"m-cs", "{% if x matches '/^z/' %}M{% else %}N{% endif %}", func(x string, sh int) string {
+		if vhC01Has(x, "z") {
+			return "M"
+		}
+		return "N"
+	}},
+	{"m-ci", "{% if x matches '/^z/i' %}M{% else %}N{% endif %}", func(x string, sh int) string {
+		if vhC01Has(x, "z") || vhC01Has(x, "Z") {
+			return "M"
+		}
+		return "N"
+	}},
+	{"m-cs2", "{% if x matches '/^Z/' %}M{% else %}N{% endif %}", func(x string, sh int) string {
+		if vhC01Has(x, "Z") {
+			return "M"
+		}
+		return "N"
+	}},
+	{"m-plain", "{% if x matches '^z' %}M{% else %}N{% endif %}", func(x string, sh int) string {
+		if vhC01Has(x, "z") {
+			return "M"
+		}
+		return "N"
+	}},
+	{"attr-v", "{{ o.V }}", func(x string, sh int) string { return vhC01ObjV(x, sh) }},
+	{"attr-w", "{{ o.W }}", func(x string, sh int) string { return vhC01ObjW(x, sh) }},
+	{"attr-vw", "{{ o.V }}{{ o.W }}|{{ o.V }}", func(x string, sh int) string {
+		return vhC01ObjV(x, sh) + vhC01ObjW(x, sh) + "|" + vhC01ObjV(x, sh)
+	}},
+	{"attr-meth", "{{ o.Name }}", func(x string, sh int) string {
+		if sh == 4 {
+			return "meth"
+		}
+		return ""
+	}},
+	{"split", "{{ x|split('z')|join('-') }}", func(x string, sh int) string {
+		out := ""
+		for i := 0; i < len(x); i++ {
+			if x[i] == 'z' {
+				out += "-"
+			} else {
+				out += x[i : i+1]
+			}
+		}
+		return out
+	}},
+	{"replace", "{{ x|replace('z', 'Q') }}", func(x string, sh int) string {
+		out := ""
+		for i := 0; i < len(x); i++ {
+			if x[i] == 'z' {
+				out += "Q"
+			} else {
+				out += x[i : i+1]
+			}
+		}
+		return out
+	}},
+}
+
+// VH_C01_Global: H renders (template, context and engine chosen symbolically at every step) on two
+// engines of one process; every one agrees with the model.
+func VH_C01_Global() {
+	h := symParam("H", 2)
+	e1, e2 := New(), New()
+	for _, g := range vhC01Globals {
+		e1.RegisterString(g.name, g.src)
+		e2.RegisterString(g.name, g.src)
+	}
+	tag := "seq:"
+	for i := 0; i < h; i++ {
+		k := symChoice(len(vhC01Globals))
+		g := vhC01Globals[k]
+		x := symStringIn(symChoice(symParam("L", 2)+1), "zZa")
+		sh := 0
+		if len(g.name) > 4 && g.name[:4] == "attr" {
+			sh = symChoice(5)
+		}
+		e := e1
+		if i > 0 && symBool() {
+			e = e2
+		}
+		tag += g.name + "/" + string(rune('0'+sh)) + ","
+		got, err := e.Render(g.name, map[string]interface{}{"x": x, "o": vhC01Obj(x, sh)})
+		if i == h-1 {
+			symTag(tag)
+			symCover("rendered")
+		}
+		symAssert(err == nil, "model-no-error")
+		symAssert(got == g.want(x, sh), "agrees-with-model")
+	}
+}
